@@ -21,7 +21,7 @@ EXTENDS UrlNorm, Json
 CONSTANTS Cluster,       \* "A0" | "A1" | "A2" | "A3" | "B" | "C" | "D" | "E" | "S" | "SH" | "S2"
           SampleMod,     \* 1: everything; n: boundary cases + those with Hash % n = SampleRem
           SampleRem,
-          WithVariants,  \* families include Variants(base)
+          VKinds,        \* kinds of Variants(base) included in the families ({}: none)
           Check,         \* evaluate Norm and the properties (design check)
           EmitOn         \* print the families
 
@@ -32,24 +32,29 @@ vars == <<st, i1, fam, res, res2>>
 NoUser == UserCat[1]
 HostH  == HostCat[1]
 Http   == SchemeCat[1]
-NoPort(dp) == PortCat(dp)[1]
+NoPort(dp) == PortAt(dp, 1)
 Range(f) == {f[i] : i \in DOMAIN f}
 Strs(C, k) == UNION {[1..n -> Range(C)] : n \in 0..k}
 B0(b, al) == [b |-> b, al |-> al]
 
 HostsByText(ts) == {i \in 1..Len(HostCat) : HostCat[i].t \in ts}
+HostsA2 == HostsByText({S("h"), S("[::1]"), S("127.0.0.1"), <<>>})
+HostsA3 == HostsByText({S("h"), S("a.x"), S("localhost"), S("[::1]"), <<>>})
+tP == S("/p")
+EncPaths == {<<SLASH, EAC>>, S("/a/") \o <<EAC>> \o S("/b"), <<SLASH, FWX>>, <<SLASH, SUR>>, S("/a b"), S("/%e9"), S("/%C3%A9")}
+EncQFs   == {<<QM, EAC>>, <<HASH, EAC>>, S("?a=") \o <<EAC>> \o S("&b=%e9"), S("?c d#e f"), <<QM, FWX>>, <<HASH, SUR>>}
 
 \* path text of a segment list
 PathOf3(segs, trail) == <<SLASH>> \o Join(segs, SLASH) \o (IF trail THEN <<SLASH>> ELSE <<>>)
 
 NonAsciiHosts == {i \in 1..Len(HostCat) : ~AllAscii(HostCat[i].t)}
 EncBases(enc) ==
-  {Base(Http, NoUser, HostCat[i], NoPort(Http.dp), S("/p"), <<>>, enc) : i \in NonAsciiHosts}
+  {Base(Http, NoUser, HostCat[i], NoPort(Http.dp), tP, <<>>, enc) : i \in NonAsciiHosts}
   \cup {Base(Http, NoUser, HostH, NoPort(Http.dp), pa, <<>>, enc) :
-          pa \in {<<SLASH, EAC>>, S("/a/") \o <<EAC>> \o S("/b"), <<SLASH, FWX>>, <<SLASH, SUR>>, S("/a b"), S("/%e9"), S("/%C3%A9")}}
-  \cup {Base(Http, NoUser, HostH, NoPort(Http.dp), S("/p"), qf, enc) :
-          qf \in {<<QM, EAC>>, <<HASH, EAC>>, S("?a=") \o <<EAC>> \o S("&b=%e9"), S("?c d#e f"), <<QM, FWX>>, <<HASH, SUR>>}}
-  \cup {Base(Http, UserCat[i], HostH, NoPort(Http.dp), S("/p"), <<>>, enc) :
+          pa \in EncPaths}
+  \cup {Base(Http, NoUser, HostH, NoPort(Http.dp), tP, qf, enc) :
+          qf \in EncQFs}
+  \cup {Base(Http, UserCat[i], HostH, NoPort(Http.dp), tP, <<>>, enc) :
           i \in {j \in 1..Len(UserCat) : UserCat[j].k \in {"nonascii", "escaped-utf8", "escaped-latin1", "surrogate", "user-pass"}}}
 
 N1 == CASE Cluster = "A0" -> 4
@@ -70,20 +75,20 @@ Raw(text, tags) == [sc |-> text, dp |-> <<>>, ui |-> <<>>, ho |-> <<>>, hg |-> 0
 \* the bases of the cluster whose first dimension has index i
 Bases(i) ==
   CASE Cluster = "A0" ->      \* every catalogue entry once, the other dimensions at their defaults
-         (IF i = 1 THEN {B0(Base(SchemeCat[j], NoUser, HostH, NoPort(SchemeCat[j].dp), S("/p"), <<>>, "utf-8"), TRUE) : j \in 1..Len(SchemeCat)}
-          ELSE IF i = 2 THEN {B0(Base(Http, UserCat[j], HostH, NoPort(Http.dp), S("/p"), <<>>, "utf-8"), TRUE) : j \in 1..Len(UserCat)}
-          ELSE IF i = 3 THEN {B0(Base(Http, NoUser, HostCat[j], NoPort(Http.dp), S("/p"), <<>>, "utf-8"), TRUE) : j \in 1..Len(HostCat)}
-          ELSE {B0(Base(SchemeCat[s], NoUser, HostH, PortCat(SchemeCat[s].dp)[j], S("/p"), <<>>, "utf-8"), TRUE) :
-                   s \in 1..3, j \in 1..Len(PortCat(Http.dp))})
+         (IF i = 1 THEN {B0(Base(SchemeCat[j], NoUser, HostH, NoPort(SchemeCat[j].dp), tP, <<>>, "utf-8"), TRUE) : j \in 1..Len(SchemeCat)}
+          ELSE IF i = 2 THEN {B0(Base(Http, UserCat[j], HostH, NoPort(Http.dp), tP, <<>>, "utf-8"), TRUE) : j \in 1..Len(UserCat)}
+          ELSE IF i = 3 THEN {B0(Base(Http, NoUser, HostCat[j], NoPort(Http.dp), tP, <<>>, "utf-8"), TRUE) : j \in 1..Len(HostCat)}
+          ELSE {B0(Base(SchemeCat[s], NoUser, HostH, PortAt(SchemeCat[s].dp, j), tP, <<>>, "utf-8"), TRUE) :
+                   s \in 1..3, j \in 1..NPorts})
     [] Cluster = "A1" ->      \* scheme x userinfo? x host x port
-         {B0(Base(SchemeCat[s], UserCat[u], HostCat[i], PortCat(SchemeCat[s].dp)[p], S("/p"), <<>>, "utf-8"), FALSE) :
-             s \in 1..NMainSchemes, u \in 1..2, p \in 1..Len(PortCat(Http.dp))}
+         {B0(Base(SchemeCat[s], UserCat[u], HostCat[i], PortAt(SchemeCat[s].dp, p), tP, <<>>, "utf-8"), FALSE) :
+             s \in 1..NMainSchemes, u \in 1..2, p \in 1..NPorts}
     [] Cluster = "A2" ->      \* userinfo forms
-         {B0(Base(SchemeCat[s], UserCat[i], HostCat[h], PortCat(SchemeCat[s].dp)[p], S("/p"), <<>>, "utf-8"), TRUE) :
-             s \in {1, 3}, h \in HostsByText({S("h"), S("[::1]"), S("127.0.0.1"), <<>>}), p \in {1, 3}}
+         {B0(Base(SchemeCat[s], UserCat[i], HostCat[h], PortAt(SchemeCat[s].dp, p), tP, <<>>, "utf-8"), TRUE) :
+             s \in {1, 3}, h \in HostsA2, p \in {1, 3}}
     [] Cluster = "A3" ->      \* scheme forms
-         {B0(Base(SchemeCat[i], UserCat[u], HostCat[h], PortCat(SchemeCat[i].dp)[p], S("/p"), <<>>, "utf-8"), TRUE) :
-             u \in {1, 3}, h \in HostsByText({S("h"), S("a.x"), S("localhost"), S("[::1]"), <<>>}), p \in {1, 2, 3, 9}}
+         {B0(Base(SchemeCat[i], UserCat[u], HostCat[h], PortAt(SchemeCat[i].dp, p), tP, <<>>, "utf-8"), TRUE) :
+             u \in {1, 3}, h \in HostsA3, p \in {1, 2, 3, 9}}
     [] Cluster = "B" ->       \* paths of <= 3 catalogue segments, with / without trailing slash
          (IF i = 1 THEN {B0(Base(Http, NoUser, HostH, NoPort(Http.dp), pa, <<>>, "utf-8"), TRUE) : pa \in {<<>>, <<SLASH>>}}
           ELSE LET s1 == i - 1
@@ -94,11 +99,11 @@ Bases(i) ==
                       EXCEPT !.tags = [k \in 1..Len(sg) |-> SegKind[sg[k]]]],
                    Len(sg) < 3) : sg \in segsets, tr \in BOOLEAN})
     [] Cluster = "C" ->       \* query / fragment strings <= 4 over 8 classes
-         (IF i = 1 THEN {B0(Base(Http, NoUser, HostH, NoPort(Http.dp), S("/p"), <<>>, "utf-8"), TRUE)}
-          ELSE {B0(Base(Http, NoUser, HostH, NoPort(Http.dp), S("/p"), <<QFClasses[i - 1]>> \o r, "utf-8"), Len(r) < 3) :
+         (IF i = 1 THEN {B0(Base(Http, NoUser, HostH, NoPort(Http.dp), tP, <<>>, "utf-8"), TRUE)}
+          ELSE {B0(Base(Http, NoUser, HostH, NoPort(Http.dp), tP, <<QFClasses[i - 1]>> \o r, "utf-8"), Len(r) < 3) :
                    r \in Strs(QFClasses, 3)})
     [] Cluster = "D" ->       \* authority x covering paths x query/fragment shapes
-         {B0(Base(SchemeCat[s], NoUser, HostCat[i], PortCat(SchemeCat[s].dp)[p], CrossPaths[a], CrossQF[q], "utf-8"), FALSE) :
+         {B0(Base(SchemeCat[s], NoUser, HostCat[i], PortAt(SchemeCat[s].dp, p), CrossPaths[a], CrossQF[q], "utf-8"), FALSE) :
              s \in {1, 3, 5}, p \in 1..4, a \in 1..Len(CrossPaths), q \in 1..Len(CrossQF)}
     [] Cluster = "E" ->       \* non-ASCII text under the document encodings
          {B0(b, TRUE) : b \in EncBases(EncCat[i])}
@@ -106,8 +111,8 @@ Bases(i) ==
          (IF i = 1 THEN {B0(Raw(<<>>, <<"soup">>), TRUE)}
           ELSE {B0(Raw(<<SoupClasses[i - 1]>> \o r, <<"soup">>), Len(r) < 4) : r \in Strs(SoupClasses, 4)})
     [] Cluster = "SH" ->      \* "http://" + soup <= 4
-         (IF i = 1 THEN {B0(Raw(S("http://"), <<"http-soup">>), TRUE)}
-          ELSE {B0(Raw(S("http://") \o <<SoupClasses[i - 1]>> \o r, <<"http-soup">>), Len(r) < 3) : r \in Strs(SoupClasses, 3)})
+         (IF i = 1 THEN {B0(Raw(Http.t, <<"http-soup">>), TRUE)}
+          ELSE {B0(Raw(Http.t \o <<SoupClasses[i - 1]>> \o r, <<"http-soup">>), Len(r) < 3) : r \in Strs(SoupClasses, 3)})
     [] Cluster = "S2" ->      \* soup with a letter, a digit and a space: <= 4 over 13 classes
          (IF i = 1 THEN {B0(Raw(<<SPC>>, <<"soup2">>), TRUE)}
           ELSE {B0(Raw(<<Soup2Classes[i - 1]>> \o r, <<"soup2">>), Len(r) < 3) : r \in Strs(Soup2Classes, 3)})
@@ -115,7 +120,7 @@ Bases(i) ==
 Keep(x) == SampleMod = 1 \/ x.al \/ Hash(Render(x.b)) % SampleMod = SampleRem
 
 Family(b) == [cl |-> Cluster, tags |-> b.tags, enc |-> b.enc,
-              m  |-> << <<"base", Render(b)>> >> \o (IF WithVariants THEN Variants(b) ELSE <<>>)]
+              m  |-> << <<"base", Render(b)>> >> \o (IF VKinds = {} THEN <<>> ELSE SelectSeq(Variants(b), LAMBDA v : v[1] \in VKinds))]
 
 NoRes == <<>>
 SecondPass(r, enc) == IF r.oc = "value" /\ r.net THEN Norm(r.url, enc) ELSE [oc |-> "none"]
